@@ -778,8 +778,16 @@ func val3multi(c *Ctx, fn *ssa.Function) {
 			}
 		}
 	}
-	c.Check(good && recvIsParam, key+":elements", set.Pos(), "each element of the list parameter, in order, is TrimSpace'd and Set on the target",
-		"elements are not applied as Set(TrimSpace(list[i])) in order on the target parameter")
+	why := "elements are not applied as Set(TrimSpace(list[i])) in order on the target parameter"
+	if good {
+		// no element is passed over: an iteration cannot come back to the loop header without the Set
+		if _, h, isR := rangeElemHeader(stdCall(arg, "strings", "TrimSpace").Call.Args[0]); isR && h != nil {
+			if _, entry, _ := loopBody(h); entry != nil && entry != set.Block() && ir.Reach(entry, map[*ssa.BasicBlock]bool{set.Block(): true}, nil)[h] {
+				good, why = false, "an element of the list can be passed over without being Set (an empty element is a value like any other)"
+			}
+		}
+	}
+	c.Check(good && recvIsParam, key+":elements", set.Pos(), "each element of the list parameter, in order, is TrimSpace'd and Set on the target", why)
 	// Clear before the loop
 	cleared := false
 	for _, cl := range clears {
@@ -1111,6 +1119,12 @@ func val6(c *Ctx) {
 				n++
 				if st.Addr == ssa.Value(into) && st.Val == ssa.Value(v) {
 					stored = true
+					// on every way out: the store's block dominates each return
+					for _, ret := range ir.Returns(fn) {
+						if !st.Block().Dominates(ret.Block()) {
+							stored = false
+						}
+					}
 				}
 			}
 		})
@@ -1121,8 +1135,8 @@ func val6(c *Ctx) {
 			}
 		}
 		c.Check(stored && n == 1 && retOK && len(ir.Calls(fn)) == 0, key, fn.Pos(),
-			"stores the default into *into and returns into converted",
-			"constructor does not (only) store its value parameter to *into and return into")
+			"stores the default into *into on every path and returns into converted",
+			"constructor does not (only and unconditionally) store its value parameter to *into and return into: what the destination held before would survive")
 	}
 }
 
